@@ -3,8 +3,9 @@
 import json, os, re, shutil, sys
 ROOT = os.path.dirname(os.path.dirname(os.path.abspath(__file__)))
 w, m = sys.argv[1], sys.argv[2]          # /tmp/mut/C08 m1
-prop = os.path.basename(w)
-sid = f"{prop}_{m}"
+base = os.path.basename(w)
+prop = re.match(r"(C\d+)", base).group(1)
+sid = f"{base}_{m}"
 d = os.path.join(ROOT, "seeded", sid)
 os.makedirs(d, exist_ok=True)
 shutil.copy(os.path.join(w, "_mut", f"{m}.patch"), os.path.join(d, "patch.diff"))
